@@ -37,6 +37,10 @@ pub fn judge_nocover<T: Viewed>(r: Result<T, Rec>, ex: &Expect, p: &Path) {
         Ok(v) => {
             oblige!(ex.log.n == 0, "C01,C02:ok_only_if_the_payload_has_no_fault");
             oblige!(rec::calls() == 0, "C01:ok_only_if_nothing_reported");
+            // the same fact, said once per kind of report (so that the check of the property that owns the kind reports it)
+            oblige!(!any_ev(&ex.log, is_missing_ev), "C08:accepted_although_a_missing_field_must_be_reported");
+            oblige!(!any_ev(&ex.log, is_unknown_key_ev), "C09:accepted_although_an_unknown_key_must_be_reported");
+            oblige!(!any_ev(&ex.log, is_user_fn_ev), "C11:accepted_although_a_user_function_failed");
             oblige!(ex.log.n != 0 || eq_slots(&v.slots(), &ex.view), "C07,C08,C10:fields_filled_from_effective_keys_defaults_and_selected_variant");
             oblige!(ex.log.n != 0 || eq_counters(&counters(), &ex.counters), "C11:user_functions_run_exactly_once_on_good_values");
         }
@@ -259,7 +263,7 @@ fn tagged_run(n: u8) -> (Result<Tagged, Rec>, Expect, Path) {
     let r = <Tagged as Deserr<Rec>>::deserialize_from_value::<KV>(to_value(Node::Map(0, n)), l);
     let mut ex = Expect::EMPTY;
     reference::enum_spec(&E_TAGGED, Node::Map(0, n), p, &mut ex);
-    match (&r, ex.log.n) { (Err(e), k) if k > 0 => { oblige!(agree_on(e, &ex.log, is_tag_ev), "C04,C10:tag_and_variant_reports"); } _ => {} }
+    match (&r, ex.log.n) { (Err(e), k) if k > 0 => { oblige!(agree_on(e, &ex.log, is_tag_ev), "C04,C10:tag_and_variant_reports"); } (Ok(_), k) if k > 0 => { oblige!(!any_ev(&ex.log, is_tag_ev), "C10:accepted_although_the_tag_or_variant_must_be_reported"); } _ => {} }
     (r, ex, p)
 }
 fn run_tagged(n: u8) { let (r, ex, p) = tagged_run(n); judge(r, &ex, &p); }
@@ -289,7 +293,7 @@ pub fn derive_units() {
     let r = <Units as Deserr<Rec>>::deserialize_from_value::<KV>(to_value(n), l);
     let mut ex = Expect::EMPTY;
     reference::unit_enum_spec(&[0, 1, 2], n, p, &mut ex);
-    match (&r, ex.log.n) { (Err(e), k) if k > 0 => { oblige!(agree_on(e, &ex.log, is_tag_ev), "C04,C10:tag_and_variant_reports"); } _ => {} }
+    match (&r, ex.log.n) { (Err(e), k) if k > 0 => { oblige!(agree_on(e, &ex.log, is_tag_ev), "C04,C10:tag_and_variant_reports"); } (Ok(_), k) if k > 0 => { oblige!(!any_ev(&ex.log, is_tag_ev), "C10:accepted_although_the_tag_or_variant_must_be_reported"); } _ => {} }
     judge(r, &ex, &p);
 }
 
@@ -393,7 +397,7 @@ fn tagdeny_run(n: u8) {
     let r = <TagDeny as Deserr<Rec>>::deserialize_from_value::<KV>(to_value(Node::Map(0, n)), l);
     let mut ex = Expect::EMPTY;
     reference::enum_spec(&E_TAGDENY, Node::Map(0, n), p, &mut ex);
-    match (&r, ex.log.n) { (Err(e), k) if k > 0 => { oblige!(agree_on(e, &ex.log, is_tag_ev), "C04,C10:tag_and_variant_reports"); } _ => {} }
+    match (&r, ex.log.n) { (Err(e), k) if k > 0 => { oblige!(agree_on(e, &ex.log, is_tag_ev), "C04,C10:tag_and_variant_reports"); } (Ok(_), k) if k > 0 => { oblige!(!any_ev(&ex.log, is_tag_ev), "C10:accepted_although_the_tag_or_variant_must_be_reported"); } _ => {} }
     judge(r, &ex, &p);
 }
 /// tag first / tag last, one other member (a field key, an unknown key, or the tag key again)
@@ -516,6 +520,102 @@ pub static S_CAMEL2: StructDesc = StructDesc { fields: &[
 ], deny: Deny::Default, validate: None };
 pub fn derive_camel2_2() { run_struct::<Camel2>(&S_CAMEL2, &D_CAMEL2, 2) }
 
+
+// ---- T18: variants carrying BOTH rename and rename_all, in both orders of writing (variant attribute merging) -----------
+#[derive(Deserr)]
+#[deserr(tag = "kind", deny_unknown_fields)]
+pub enum TagBoth {
+    #[deserr(rename_all = lowercase, rename = "hhhh")]
+    VarH { ZzZz: Leaf },
+    #[deserr(rename = "iiii", rename_all = lowercase)]
+    VarI { WwWw: Leaf },
+    #[deserr(rename_all = lowercase)]
+    #[deserr(rename = "jjjj")]
+    VarJ { QqQq: Leaf },
+    VarK { RrRr: Leaf },
+}
+impl Viewed for TagBoth {
+    fn slots(&self) -> [u64; MAXF] { match self { TagBoth::VarH { ZzZz } => [1, lv(ZzZz), 0, 0, 0, 0], TagBoth::VarI { WwWw } => [2, lv(WwWw), 0, 0, 0, 0], TagBoth::VarJ { QqQq } => [3, lv(QqQq), 0, 0, 0, 0], TagBoth::VarK { RrRr } => [4, lv(RrRr), 0, 0, 0, 0] } }
+}
+// effective variant names: hhhh, iiii, jjjj, VarK; effective field keys: zzzz, wwww, qqqq (the variants' own lowercase), RrRr
+pub static D_TAGBOTH: [&str; 16] = ["kind", "hhhh", "iiii", "jjjj", "VarK", "zzzz", "wwww", "qqqq", "RrRr", "VarH", "VarI", "VarJ", "ZzZz", "WwWw", "QqQq", "rrrr"];
+pub static S_TB_H: StructDesc = StructDesc { fields: &[FieldDesc { key: 5, presence: Presence::Required, ty: FTy::Leaf, missing_fn: false, conv: Conv::None, map: None }], deny: Deny::Default, validate: None };
+pub static S_TB_I: StructDesc = StructDesc { fields: &[FieldDesc { key: 6, presence: Presence::Required, ty: FTy::Leaf, missing_fn: false, conv: Conv::None, map: None }], deny: Deny::Default, validate: None };
+pub static S_TB_J: StructDesc = StructDesc { fields: &[FieldDesc { key: 7, presence: Presence::Required, ty: FTy::Leaf, missing_fn: false, conv: Conv::None, map: None }], deny: Deny::Default, validate: None };
+pub static S_TB_K: StructDesc = StructDesc { fields: &[FieldDesc { key: 8, presence: Presence::Required, ty: FTy::Leaf, missing_fn: false, conv: Conv::None, map: None }], deny: Deny::Default, validate: None };
+pub static E_TAGBOTH: EnumDesc = EnumDesc { tag: 0, variants: &[(1, VariantDesc::Named(&S_TB_H)), (2, VariantDesc::Named(&S_TB_I)), (3, VariantDesc::Named(&S_TB_J)), (4, VariantDesc::Named(&S_TB_K))] };
+/// native execution only: tag (any dictionary word) first or last + one other member (any dictionary word)
+pub fn derive_tagboth_2() {
+    reset_all(&D_TAGBOTH);
+    let tag = Node::Str(1 + nd::below(11));
+    let k = nd::below(16);
+    if nd::bool() { put_entry(0, 0, tag); put_entry(1, k, any_val()); } else { put_entry(0, k, any_val()); put_entry(1, 0, tag); }
+    let o = ValuePointerRef::Origin; let l = o.push_index(1); let p = Path::ROOT.idx(1);
+    let r = <TagBoth as Deserr<Rec>>::deserialize_from_value::<KV>(to_value(Node::Map(0, 2)), l);
+    let mut ex = Expect::EMPTY;
+    reference::enum_spec(&E_TAGBOTH, Node::Map(0, 2), p, &mut ex);
+    match (&r, ex.log.n) { (Err(e), n) if n > 0 => { oblige!(agree_on(e, &ex.log, is_tag_ev), "C04,C10:tag_and_variant_reports"); } (Ok(_), n) if n > 0 => { oblige!(!any_ev(&ex.log, is_tag_ev), "C10:accepted_although_the_tag_or_variant_must_be_reported"); } _ => {} }
+    judge(r, &ex, &p);
+}
+
+// ---- T19: `validate` on enums (internally tagged with a unit variant; unit-only read from a string) ---------------------
+pub fn validate_tagv(v: TagVal, loc: ValuePointerRef) -> Result<TagVal, Foreign> {
+    bump(3);
+    let sl = v.slots(); let mut s = 0u64; let mut i = 0; while i < MAXF { s += sl[i]; i += 1; }
+    if s % 2 == 1 { Err(Foreign(4000 + (s as u32 % 1000), pathsig(&path_of(loc)) & 0xfff)) } else { Ok(v) }
+}
+#[derive(Deserr)]
+#[deserr(error = Rec, tag = "kind", validate = validate_tagv -> Foreign)]
+pub enum TagVal { Unit, Unib, VarB { xxxx: Leaf } }
+impl Viewed for TagVal {
+    fn slots(&self) -> [u64; MAXF] { match self { TagVal::Unit => [1, 0, 0, 0, 0, 0], TagVal::Unib => [2, 0, 0, 0, 0, 0], TagVal::VarB { xxxx } => [3, lv(xxxx), 0, 0, 0, 0] } }
+}
+pub static D_TAGVAL: [&str; 5] = ["kind", "Unit", "Unib", "VarB", "xxxx"];
+pub static S_TV_B: StructDesc = StructDesc { fields: &[FieldDesc { key: 4, presence: Presence::Required, ty: FTy::Leaf, missing_fn: false, conv: Conv::None, map: None }], deny: Deny::No, validate: None };
+pub static E_TAGVAL: EnumDesc = EnumDesc { tag: 0, variants: &[(1, VariantDesc::Unit), (2, VariantDesc::Unit), (3, VariantDesc::Named(&S_TV_B))] };
+/// validation runs exactly once when the enum was built (whatever the variant), on the finished value, at the enum's location
+fn validated(ex: &mut Expect, p: Path) {
+    if ex.log.n == 0 {
+        ex.counters[3] += 1;
+        let mut s = 0u64; let mut i = 0; while i < MAXF { s += ex.view[i]; i += 1; }
+        if s % 2 == 1 { ex.log.push(report(K_FOREIGN, p, 4000 + (s as u32 % 1000), pathsig(&p) & 0xfff)); }
+    }
+}
+pub fn derive_tagval_2() {
+    reset_all(&D_TAGVAL);
+    let tag = match nd::below(4) { 0 => Node::Str(1), 1 => Node::Str(2), 2 => Node::Str(3), _ => Node::Int(0) };
+    let k = if nd::bool() { 4 } else { 0 };
+    if nd::bool() { put_entry(0, 0, tag); put_entry(1, k, any_val()); } else { put_entry(0, k, any_val()); put_entry(1, 0, tag); }
+    let o = ValuePointerRef::Origin; let l = o.push_index(1); let p = Path::ROOT.idx(1);
+    let r = <TagVal as Deserr<Rec>>::deserialize_from_value::<KV>(to_value(Node::Map(0, 2)), l);
+    let mut ex = Expect::EMPTY;
+    reference::enum_spec(&E_TAGVAL, Node::Map(0, 2), p, &mut ex);
+    if ex.log.n == 0 { oblige!(counters()[3] == 1, "C11:validate_runs_exactly_once_when_the_value_was_built_whatever_the_variant"); }
+    validated(&mut ex, p);
+    judge(r, &ex, &p);
+}
+pub fn validate_unitsv(v: UnitsV, loc: ValuePointerRef) -> Result<UnitsV, Foreign> {
+    bump(3);
+    let s = v.slots()[0];
+    if s % 2 == 1 { Err(Foreign(4000 + (s as u32 % 1000), pathsig(&path_of(loc)) & 0xfff)) } else { Ok(v) }
+}
+#[derive(Deserr, Debug, PartialEq, Eq)]
+#[deserr(error = Rec, validate = validate_unitsv -> Foreign)]
+pub enum UnitsV { Aaaa, Bbbb }
+impl Viewed for UnitsV { fn slots(&self) -> [u64; MAXF] { [match self { UnitsV::Aaaa => 1, UnitsV::Bbbb => 2 }, 0, 0, 0, 0, 0] } }
+pub static D_UNITSV: [&str; 3] = ["Aaaa", "Bbbb", "aaaa"];
+pub fn derive_unitsv() {
+    reset_all(&D_UNITSV);
+    let n = match nd::below(3) { 0 => Node::Str(nd::below(3)), 1 => Node::Int(1), _ => Node::Null };
+    let o = ValuePointerRef::Origin; let l = o.push_index(1); let p = Path::ROOT.idx(1);
+    let r = <UnitsV as Deserr<Rec>>::deserialize_from_value::<KV>(to_value(n), l);
+    let mut ex = Expect::EMPTY;
+    reference::unit_enum_spec(&[0, 1], n, p, &mut ex);
+    if ex.log.n == 0 { oblige!(counters()[3] == 1, "C11:validate_runs_exactly_once_when_the_value_was_built_whatever_the_variant"); }
+    validated(&mut ex, p);
+    judge(r, &ex, &p);
+}
+
 // ---- C15: member order never changes the outcome (relational: same members, both orders, keep-going) -----------
 pub fn same_multiset(a: &Rec, b: &Rec) -> bool {
     if a.n != b.n { return false; }
@@ -578,7 +678,7 @@ pub fn registry() -> Vec<(&'static str, crate::Body)> {
          ("derive_fns5_2", derive_fns5_2), ("derive_conv8_2", derive_conv8_2), ("derive_conv8_3", derive_conv8_3), ("derive_cont9", derive_cont9),
          ("derive_tagged_first", derive_tagged_first), ("derive_tagged_last", derive_tagged_last), ("derive_tagged_absent", derive_tagged_absent), ("derive_tagged_not_a_map", derive_tagged_not_a_map),
          ("derive_units", derive_units), ("derive_nest", derive_nest), ("derive_deffirst_2", derive_deffirst_2), ("derive_deffirst_3", derive_deffirst_3), ("derive_ferr10_2", derive_ferr10_2),
-         ("derive_refs13_2", derive_refs13_2), ("derive_refs13_3", derive_refs13_3), ("derive_cfrom14", derive_cfrom14), ("derive_tagfn_3", derive_tagfn_3), ("derive_camel2_2", derive_camel2_2), ("derive_cont9b", derive_cont9b), ("derive_tagdeny_first", derive_tagdeny_first), ("derive_tagdeny_last", derive_tagdeny_last), ("order_camel", order_camel), ("order_tagged", order_tagged), ("order_conv8", order_conv8),
+         ("derive_refs13_2", derive_refs13_2), ("derive_refs13_3", derive_refs13_3), ("derive_cfrom14", derive_cfrom14), ("derive_tagfn_3", derive_tagfn_3), ("derive_tagboth_2", derive_tagboth_2), ("derive_tagval_2", derive_tagval_2), ("derive_unitsv", derive_unitsv), ("derive_camel2_2", derive_camel2_2), ("derive_cont9b", derive_cont9b), ("derive_tagdeny_first", derive_tagdeny_first), ("derive_tagdeny_last", derive_tagdeny_last), ("order_camel", order_camel), ("order_tagged", order_tagged), ("order_conv8", order_conv8),
          ("order_camel_3", order_camel_3), ("order_lower_3", order_lower_3), ("order_deffirst_3", order_deffirst_3), ("order_tagged_3", order_tagged_3), ("order_tagdeny_3", order_tagdeny_3)]
 }
 
